@@ -1236,7 +1236,7 @@ class Unit:
         if any(
             exponent // degree != exponent / degree
             for unit, exponent in self.factors.items()
-            if exponent > 0 and unit is not One
+            if unit is not One
         ):
             raise FractionalDimensionError(degree, self)
 
